@@ -204,8 +204,12 @@ def sender_case(ctx, seed, idx):
         it = iter(toks)
         body = build(it, 'c%d' % i)
         # structs may be tuples, arrays lists
+        # every way of making the call: reply expected or not (fire and forget), with a deadline, auto-start off
+        kw = r.choice([{}, {}, {'expectReply': False}, {'expectReply': False}, {'timeout': 5.0}, {'autoStart': False},
+                       {'expectReply': False, 'autoStart': False}])
+        ctx.count('sender_calls_' + ('noreply' if kw.get('expectReply') is False else 'reply'))
         d = conn.callRemote('/a', 'S%d' % i, interface='a.b', destination='a.b', signature=sig or None,
-                            body=body if sig else None)
+                            body=body if sig else None, **kw)
         d.addErrback(lambda f: None)
         sent.append({'sig': sig, 'toks': toks, 'body': body, 'member': 'S%d' % i})
     ctx.count('evaluations')
